@@ -145,10 +145,196 @@ pub open spec fn last_vid(l: Seq<Eff>) -> int {
 pub open spec fn reply_log_ok(l0: Seq<Eff>, l1: Seq<Eff>, pid: int, req: int) -> bool {
     let v = last_vid(l1);
     let base = hook_log(l0, HookTag::Handle(pid)).push(Eff::Ret(pid, v));
-    l1 == base.push(Eff::ReplySent(req, v)) || l1 == base.push(Eff::ReplyLost(req, v))
+    l1 =~= base.push(Eff::ReplySent(req, v)) || l1 =~= base.push(Eff::ReplyLost(req, v))
 }
 /// tell path: handler, return marker, then exactly one on_tell_result with that value; no reply.
 pub open spec fn tell_log_ok(l0: Seq<Eff>, l1: Seq<Eff>, pid: int) -> bool {
     let v = last_vid(l1);
-    l1 == hook_log(hook_log(l0, HookTag::Handle(pid)).push(Eff::Ret(pid, v)), HookTag::TellResult(v)).push(Eff::TellResultDone(v))
+    l1 =~= hook_log(hook_log(l0, HookTag::Handle(pid)).push(Eff::Ret(pid, v)), HookTag::TellResult(v)).push(Eff::TellResultDone(v))
+}
+
+// ---------------------------------------------------------------- effect relations of the send side (DESIGN 2.4)
+pub open spec fn env_view(pid: int, req: Option<int>, mbx: int) -> MsgView { MsgView::Envelope { pid, req, holds: mbx } }
+
+/// what one call of dead_letter::record::<M>(identity, reason, op) appends to the log
+#[cfg(feature = "test-utils")]
+pub open spec fn dl_log<M>(l: Seq<Eff>, identity: Identity, reason: DeadLetterReason, op: Seq<char>) -> Seq<Eff> {
+    l.push(Eff::FetchAdd(cell_DEAD_LETTER_COUNT(), 1)).push(Eff::DeadLetterLog(identity.id, identity.type_name@, type_name_spec::<M>(), reason, op))
+}
+#[cfg(not(feature = "test-utils"))]
+pub open spec fn dl_log<M>(l: Seq<Eff>, identity: Identity, reason: DeadLetterReason, op: Seq<char>) -> Seq<Eff> {
+    l.push(Eff::DeadLetterLog(identity.id, identity.type_name@, type_name_spec::<M>(), reason, op))
+}
+
+/// R_tell / R_blocking_tell (op = "tell" | "blocking_tell"): exactly one enqueue attempt on the one mailbox,
+/// waiting send (Await marker, never TryFull); Ok iff accepted; the envelope embeds a strong reference to this
+/// actor; exactly one dead letter (ActorStopped) iff rejected; Err is Send{identity = self.id}.
+pub open spec fn r_tell<T: Actor, M>(this: ActorRef<T>, pid: int, l0: Seq<Eff>, l1: Seq<Eff>, r: Result<()>, op: Seq<char>) -> bool {
+    let env = env_view(pid, None, this.mbx_chan());
+    let pre = l0.push(Eff::Await(AwaitKind::Send));
+    match r {
+        Ok(_) => l1 =~= pre.push(Eff::Enq(this.mbx_chan(), env)),
+        Err(Error::Send { identity, .. }) => identity == this.id
+            && l1 =~= dl_log::<M>(pre.push(Eff::Rejected(this.mbx_chan(), env)), this.id, DeadLetterReason::ActorStopped, op),
+        Err(_) => false,
+    }
+}
+
+/// R_tell_timeout(d): the tell relation with the timer resolution appended when the inner operation completed (its own
+/// outcome passes through unchanged, no extra dead letter); or Err(Timeout{self.id, d, "tell"}) with the log cut back to
+/// before the send suspended (nothing enqueued) plus exactly one Timeout dead letter.
+pub open spec fn r_tell_timeout<T: Actor, M>(this: ActorRef<T>, pid: int, d: Duration, l0: Seq<Eff>, l1: Seq<Eff>, r: Result<()>, op: Seq<char>) -> bool {
+    let env = env_view(pid, None, this.mbx_chan());
+    let pre = l0.push(Eff::Await(AwaitKind::Send));
+    match r {
+        Ok(_) => l1 =~= pre.push(Eff::Enq(this.mbx_chan(), env)).push(Eff::TimeoutArmed(d)),
+        Err(Error::Send { identity, .. }) => identity == this.id
+            && l1 =~= dl_log::<M>(pre.push(Eff::Rejected(this.mbx_chan(), env)), this.id, DeadLetterReason::ActorStopped, op).push(Eff::TimeoutArmed(d)),
+        Err(Error::Timeout { identity, timeout, operation }) => identity == this.id && timeout == d && operation@ == op
+            && l1 =~= dl_log::<M>(l0.push(Eff::TimeoutArmed(d)), this.id, DeadLetterReason::Timeout, op),
+        Err(_) => false,
+    }
+}
+
+pub open spec fn req_at(l: Seq<Eff>, i: int) -> int {
+    if 0 <= i < l.len() { match l[i] { Eff::NewReq(q) => q, _ => 0 } } else { 0 }
+}
+
+/// the ask-side log up to and including the send attempt
+pub open spec fn ask_sent<T: Actor>(this: ActorRef<T>, pid: int, q: int, l0: Seq<Eff>) -> Seq<Eff> {
+    l0.push(Eff::NewReq(q)).push(Eff::Await(AwaitKind::Send)).push(Eff::Enq(this.mbx_chan(), env_view(pid, Some(q), this.mbx_chan())))
+}
+
+/// R_ask / R_blocking_ask (without deadlock-detection bookkeeping): a fresh request id, one enqueue attempt, then one wait on
+/// *that* request; Ok(v) only with the value received on it; Receive only when the reply sender was dropped; dead letters
+/// exactly on Send (ActorStopped) and Receive (ReplyDropped).
+pub open spec fn r_ask_core<T: Actor, M, R>(this: ActorRef<T>, pid: int, l0: Seq<Eff>, l1: Seq<Eff>, r: Result<R>, op: Seq<char>) -> bool {
+    let q = req_at(l1, l0.len() as int);
+    let sent = ask_sent(this, pid, q, l0);
+    match r {
+        Ok(v) => l1 =~= sent.push(Eff::Await(AwaitKind::Reply)).push(Eff::ReplyRecv(q, val_id(v))),
+        Err(Error::Send { identity, .. }) => identity == this.id
+            && l1 =~= dl_log::<M>(l0.push(Eff::NewReq(q)).push(Eff::Await(AwaitKind::Send)).push(Eff::Rejected(this.mbx_chan(), env_view(pid, Some(q), this.mbx_chan()))),
+                                 this.id, DeadLetterReason::ActorStopped, op),
+        Err(Error::Receive { identity, .. }) => identity == this.id
+            && l1 =~= dl_log::<M>(sent.push(Eff::Await(AwaitKind::Reply)).push(Eff::ReplyClosed(q)), this.id, DeadLetterReason::ReplyDropped, op),
+        Err(Error::Downcast { identity, .. }) => identity == this.id
+            && l1 =~= sent.push(Eff::Await(AwaitKind::Reply)).push(Eff::ReplyRecv(q, last_recv_vid(l1))),
+        Err(_) => false,
+    }
+}
+
+/// R_kill: never suspends (no Await), exactly one try_send of Terminate on the *control* channel, no mailbox effect,
+/// Ok for Ok / Full / Closed.
+pub open spec fn r_kill<T: Actor>(this: ActorRef<T>, l0: Seq<Eff>, l1: Seq<Eff>, r: Result<()>) -> bool {
+    r is Ok && (l1 =~= l0.push(Eff::Enq(this.ctl_chan(), MsgView::Signal))
+             || l1 =~= l0.push(Eff::TryFull(this.ctl_chan(), MsgView::Signal))
+             || l1 =~= l0.push(Eff::Rejected(this.ctl_chan(), MsgView::Signal)))
+}
+
+/// R_stop: exactly one waiting enqueue attempt of the in-band stop marker (which embeds a strong reference) on the one
+/// mailbox; Ok in both outcomes; no dead letter.
+pub open spec fn r_stop<T: Actor>(this: ActorRef<T>, l0: Seq<Eff>, l1: Seq<Eff>, r: Result<()>) -> bool {
+    let pre = l0.push(Eff::Await(AwaitKind::Send));
+    r is Ok && (l1 =~= pre.push(Eff::Enq(this.mbx_chan(), MsgView::StopMark { holds: this.mbx_chan() }))
+             || l1 =~= pre.push(Eff::Rejected(this.mbx_chan(), MsgView::StopMark { holds: this.mbx_chan() })))
+}
+
+/// is_alive: both channels read, alive iff neither is closed (short-circuit: the control channel is read only if the
+/// mailbox is open)
+pub open spec fn r_is_alive<T: Actor>(this: ActorRef<T>, l0: Seq<Eff>, l1: Seq<Eff>, r: bool) -> bool {
+    let b = last_bool(l1);
+    (l1 =~= l0.push(Eff::ReadClosed(this.mbx_chan(), true)) && !r)
+    || (l1 =~= l0.push(Eff::ReadClosed(this.mbx_chan(), false)).push(Eff::ReadClosed(this.ctl_chan(), b)) && r == !b)
+}
+pub open spec fn last_bool(l: Seq<Eff>) -> bool {
+    if l.len() == 0 { false } else { match l.last() { Eff::ReadClosed(_, b) => b, Eff::ReadStrong(_, b) => b, Eff::Upgrade(_, b) => b, _ => false } }
+}
+pub open spec fn last_recv_vid(l: Seq<Eff>) -> int {
+    if l.len() == 0 { 0 } else { match l.last() { Eff::ReplyRecv(_, v) => v, _ => 0 } }
+}
+
+#[cfg(feature = "test-utils")]
+pub open spec fn dl_counter_step() -> nat { 1 }
+#[cfg(not(feature = "test-utils"))]
+pub open spec fn dl_counter_step() -> nat { 0 }
+
+/// ambient state except the dead-letter counter (record may bump it) and the log
+pub open spec fn same_ambient_but_dl(w0: World, w1: World) -> bool {
+    &&& w1.current_actor() == w0.current_actor()
+    &&& w1.lock_held() == w0.lock_held()
+    &&& w1.poisoned() == w0.poisoned()
+    &&& w1.graph() == w0.graph()
+    &&& w1.mmon() == w0.mmon()
+    &&& w1.cap_cell() == w0.cap_cell()
+    &&& w1.id_floor() == w0.id_floor()
+    &&& w1.chan_floor() == w0.chan_floor()
+    &&& w1.own_strong() == w0.own_strong()
+}
+
+#[cfg(not(feature = "deadlock-detection"))]
+pub open spec fn r_ask<T: Actor, M, R>(this: ActorRef<T>, pid: int, w0: World, w1: World, r: Result<R>, op: Seq<char>) -> bool {
+    r_ask_core::<T, M, R>(this, pid, w0.log(), w1.log(), r, op)
+}
+
+/// R_ask_timeout(d): the inner ask outcome passes through unchanged (timer resolution appended), or Err(Timeout{self.id, d, op})
+/// with the log cut at one of ask's two suspension points — before the send completed (nothing enqueued) or while waiting for
+/// the reply — plus exactly one Timeout dead letter.
+#[cfg(not(feature = "deadlock-detection"))]
+pub open spec fn r_ask_timeout<T: Actor, M, R>(this: ActorRef<T>, pid: int, d: Duration, w0: World, w1: World, r: Result<R>, op: Seq<char>) -> bool {
+    let l0 = w0.log();
+    let l1 = w1.log();
+    let q = req_at(l1, l0.len() as int);
+    match r {
+        Err(Error::Timeout { identity, timeout, operation }) => identity == this.id && timeout == d && operation@ == op
+            && (l1 =~= dl_log::<M>(l0.push(Eff::NewReq(q)).push(Eff::TimeoutArmed(d)), this.id, DeadLetterReason::Timeout, op)
+                || l1 =~= dl_log::<M>(ask_sent(this, pid, q, l0).push(Eff::TimeoutArmed(d)), this.id, DeadLetterReason::Timeout, op)),
+        _ => l1.len() > 0 && l1.last() == Eff::TimeoutArmed(d) && r_ask_core::<T, M, R>(this, pid, l0, l1.drop_last(), r, op),
+    }
+}
+
+/// R_ask_join: an ask whose reply is a JoinHandle, then exactly one wait on *that* handle; the task's output is returned,
+/// a JoinError is reported as Error::Join{identity: self.id, source: that error}; ask errors pass through.
+pub open spec fn r_ask_join<T: Actor, M, R>(this: ActorRef<T>, pid: int, w0: World, w1: World, r: Result<R>) -> bool {
+    let l1 = w1.log();
+    match r {
+        Ok(v) => l1.len() >= 2 && (l1.last() matches Eff::Joined(t, true) && val_id(v) == join_output(t)
+                    && l1[l1.len() - 2] == Eff::Await(AwaitKind::Join)
+                    && ask_ok_with_handle::<T, M, R>(this, pid, w0, l1.drop_last().drop_last(), t)),
+        Err(Error::Join { identity, source }) => identity == this.id && l1.len() >= 2
+                    && (l1.last() matches Eff::Joined(t, false) && join_error_id(source) == t
+                    && l1[l1.len() - 2] == Eff::Await(AwaitKind::Join)
+                    && ask_ok_with_handle::<T, M, R>(this, pid, w0, l1.drop_last().drop_last(), t)),
+        Err(e) => exists|w_mid: World| w_mid.log() == l1 && #[trigger] r_ask::<T, M, JoinHandle<R>>(this, pid, w0, w_mid, Err(e), "ask"@),
+    }
+}
+pub open spec fn ask_ok_with_handle<T: Actor, M, R>(this: ActorRef<T>, pid: int, w0: World, l: Seq<Eff>, task: int) -> bool {
+    exists|h: JoinHandle<R>, w_mid: World| w_mid.log() =~= l && h.task() == task
+        && #[trigger] r_ask::<T, M, JoinHandle<R>>(this, pid, w0, w_mid, Ok(h), "ask"@)
+}
+
+// ---------------------------------------------------------------- weak handles
+pub open spec fn r_upgrade<T: Actor>(this: ActorWeak<T>, l0: Seq<Eff>, l1: Seq<Eff>, some: bool) -> bool {
+    let b = last_bool(l1);
+    (l1 =~= l0.push(Eff::Upgrade(this.mbx_chan(), false)) && !some)
+    || (l1 =~= l0.push(Eff::Upgrade(this.mbx_chan(), true)).push(Eff::Upgrade(this.ctl_chan(), b)) && some == b)
+}
+pub open spec fn r_weak_alive<T: Actor>(this: ActorWeak<T>, l0: Seq<Eff>, l1: Seq<Eff>, r: bool) -> bool {
+    let b = last_bool(l1);
+    (l1 =~= l0.push(Eff::ReadStrong(this.mbx_chan(), false)) && !r)
+    || (l1 =~= l0.push(Eff::ReadStrong(this.mbx_chan(), true)).push(Eff::ReadStrong(this.ctl_chan(), b)) && r == b)
+}
+
+// ---------------------------------------------------------------- spawn
+pub open spec fn default_capacity(w: World) -> usize {
+    match w.cap_cell() { Some(v) => v, None => 32 }
+}
+/// exactly: one id allocation, a mailbox of exactly `cap`, a control channel of exactly 1, one lifecycle task on those
+/// receivers with the caller's args
+#[cfg(not(feature = "metrics"))]
+pub open spec fn spawn_tail<T: Actor>(base: Seq<Eff>, r: ActorRef<T>, cap: usize, args_id: int) -> Seq<Eff> {
+    base.push(Eff::FetchAdd(cell_ACTOR_IDS(), 1))
+        .push(Eff::NewChan(r.mbx_chan(), cap as nat))
+        .push(Eff::NewChan(r.ctl_chan(), 1))
+        .push(Eff::Spawned(r.mbx_chan(), r.ctl_chan(), args_id))
 }
